@@ -9,7 +9,9 @@ TIERS = {"quick": {"runs": 2500, "budget_s": 75, "chunk": 20, "min_runs": 100},
          "thorough": {"runs": 400000, "budget_s": 1500, "chunk": 40, "min_runs": 2000}}
 RULE = ("case = seeded world of 2-4 logical clients, each with its own cstruct object, colliding type/field names, and a script of "
         "8-30 ops (load, default, parse, reparse, truncated parse, field/array/nested mutation incl. out-of-range values, dump, "
-        "set_endian, load_more, malformed load, add_type, resolve of foreign names, expression eval) interleaved by a seeded "
+        "set_endian, load_more, malformed load, add_type, resolve of foreign names, expression eval, construction incl. explicit None, "
+        "incremental add_field with update blocks kept open across other clients, #defines loaded after the structures and "
+        "redefined later, a custom type (add_custom_type) with a mutable payload changed in place) interleaved by a seeded "
         "scheduler with bursts. evaluations = worlds executed. distinct_nontrivial = distinct (interleaving, op-kind sequence) "
         "digests in which control switched between clients at least twice.")
 RULE2 = "distinct adjacent cross-client (op kind, op kind) pairs"
